@@ -225,6 +225,7 @@ func (c *hfCtx) exprFlow(e ast.Expr) (string, error) {
 		case *ast.FuncLit:
 			// A function literal may or may not run; translate its body as an optional block.
 			sub := *c
+			sub.fn = &ast.FuncDecl{Name: c.fn.Name, Type: x.Type, Body: x.Body} // returns belong to the literal
 			fl, err := sub.blockFlow(x.Body.List)
 			if err != nil {
 				firstErr = err
@@ -259,7 +260,8 @@ func (c *hfCtx) exprFlow(e ast.Expr) (string, error) {
 // stripRet makes returns inside a closure body harmless for the enclosing function (they return
 // from the closure only); we conservatively keep the events and drop nothing else.
 func stripRet(fl string) string {
-	fl = strings.ReplaceAll(fl, ".retErr", ".closureRet")
+	fl = regexp.MustCompile(`\.ret(Err|ErrVar|Last|Maybe) "[^"]*"`).ReplaceAllString(fl, ".closureRet")
+	fl = strings.ReplaceAll(fl, ".retErrU", ".closureRet")
 	fl = strings.ReplaceAll(fl, ".retOk", ".closureRet")
 	return fl
 }
@@ -350,6 +352,17 @@ func (c *hfCtx) callFlow(call *ast.CallExpr) (string, error) {
 		// method of the same package (e.g. app.transfer)
 		if fd, ok := c.pkg.funcs[m]; ok && fd != nil && recv != "" && !isPkgIdent(recv) {
 			return c.inline(fd, call)
+		}
+		// fatal mode: methods of helper types declared in the application's state package
+		// (e.g. EpochSigning.EligibleEntities), resolved by their (package-unique) name
+		if fatalMode && c.pkg.sub != nil && !isPkgIdent(recv) && len(m) > 5 {
+			if fd, ok := c.pkg.sub.funcs[m]; ok && fd != nil && fd.Recv != nil && lastResultIsError(fd) && !simpleAccessor(fd) {
+				saved := c.pkg
+				c.pkg = c.pkg.sub
+				fl, err := c.inline(fd, call)
+				c.pkg = saved
+				return fl, err
+			}
 		}
 		return ".ext", nil
 	case *ast.Ident:
